@@ -25,6 +25,8 @@ pub struct Oracle {
     pub failures: Vec<(String, String, String, String)>, // key, what, expected, observed
     pub max_id_seen: u64,
     pub adds_attempted: u64,
+    /// a fault was injected at some point of this history
+    pub ever_faulted: bool,
 }
 
 impl Oracle {
@@ -43,11 +45,16 @@ impl Oracle {
     /// `fault_possible`: a fault was armed (and not yet spent) or the store was powered off when the op ran
     pub fn observe(&mut self, line: &Line, out: &str, fault_possible: bool) {
         let ok = out.starts_with("ok");
-        let io = out == "err:io";
+        // a rejected conditional PUT is one more way an in-flight mutation may or may not have landed
+        let io = out == "err:io" || out == "err:precond";
+        self.ever_faulted |= fault_possible;
+        if out == "err:precond" && !self.ever_faulted {
+            self.fail("precondition-without-fault", "a conditional write was rejected although no fault was ever injected (single writer)", "ok".into(), format!("{} -> {out}", line.show()));
+        }
         if out.starts_with("err:other") {
             self.fail("unexpected-error", "an operation failed with an error the contract does not allow", "ok or a classified error".into(), format!("{} -> {out}", line.show()));
         }
-        if io && !fault_possible {
+        if out == "err:io" && !fault_possible {
             self.fail("io-error-without-fault", "an operation reported a storage failure although no fault was injected", "ok".into(), format!("{} -> {out}", line.show()));
         }
         match line {
@@ -98,7 +105,7 @@ impl Oracle {
                     self.fail("reopen-failed", "the collection did not reopen although no fault was pending", "ok".into(), out.into());
                 }
             }
-            Line::Arm(..) | Line::Disarm => {}
+            Line::Arm(..) | Line::Disarm | Line::SaveExt(_) | Line::Compact(_) | Line::WantIx(_) => {}
         }
     }
 
@@ -153,6 +160,40 @@ impl Oracle {
         }
         // a successful reopen ends with a successful flush
         self.ack_flush();
+    }
+}
+
+impl Oracle {
+    /// docs/testing.md: acknowledged documents are "intact *and indexed*" after the reboot — every
+    /// posting list of every index must hold exactly the ids whose stored document owns the key
+    /// (recovery converges for the derived indexes too, not only for the documents).
+    /// `postings`: (index, key) ↦ canonical answer `ix <csv>`
+    pub fn check_indexes(&mut self, gets: &BTreeMap<u64, String>, postings: &BTreeMap<(usize, u64), String>) {
+        let docs: BTreeMap<u64, DocC> = gets.iter().filter_map(|(id, a)| a.strip_prefix("ok doc ").and_then(parse_doc).map(|d| (*id, d))).collect();
+        for ((ix, key), ans) in postings {
+            if ans == "noindex" {
+                continue;
+            }
+            let want: Vec<u64> = docs
+                .iter()
+                .filter(|(_, d)| match *ix {
+                    0 => d.a == *key,
+                    1 => d.ws.contains(&(*key as usize)),
+                    _ => d.body == *key,
+                })
+                .map(|(id, _)| *id)
+                .collect();
+            let want = format!("ix {}", if want.is_empty() { "-".to_string() } else { want.iter().map(|x| x.to_string()).collect::<Vec<_>>().join(",") });
+            if &want != ans {
+                let key_name = match *ix {
+                    0 => "index-vs-docs:btree",
+                    1 => "index-vs-docs:bm25",
+                    _ => "index-vs-docs:btree-created-in-callback",
+                };
+                self.fail(key_name, "after recovery an index does not answer from the stored documents", format!("index {ix} key {key}: {want}"), format!("index {ix} key {key}: {ans}"));
+                return;
+            }
+        }
     }
 }
 
